@@ -2,6 +2,8 @@
 C14 - Spike features obey their ordering, extremum and equivariance laws.
 Real ibldsp.waveforms.compute_spike_features (and everything it calls) on symbolic reals with the pandas stand-in.
 """
+from fractions import Fraction
+
 import numpy as np
 import z3
 
@@ -196,12 +198,17 @@ def case_pick_maxima(ctx, T, C):
         ctx.oblige("reported_index_is_the_first_position_of_the_maximum", ok and and_(all_([col[i] >= a for a in col]), all_([col[t] < col[i] for t in range(i)])) if ok else False, detail={"trace": c, "index": i})
 
 
-def case_scaling(ctx, T, C, k):
+def case_scaling(ctx, T, C, k, scale="free"):
     import ibldsp.waveforms as w
     vals, arr = _wave(ctx, 1, T, C)
     _precondition(ctx, vals, 1, T, C)
-    c = ctx.real("c")
-    ctx.assume(and_(c > 0, c < 100))
+    if scale == "free":
+        c = ctx.real("c")
+        ctx.assume(and_(c > 0, c < 100))
+    else:
+        # a fixed factor keeps the arithmetic linear (decided in a few seconds whatever the solver seed); the free factor is kept in the thorough tier
+        c = Fraction(scale)
+        ctx.inputs["c"] = z3.RealVal(c)
     fs, rd = 1000.0, float(k)
     df1 = _features(ctx, w, arr, fs, rd, repeat=False)        # (non-linear case: the repeated call is exercised by the other cases)
     arr2 = arrays.mk([vals[0][t][cc] * c for t in range(T) for cc in range(C)], shape=(1, T, C), tag=np.dtype(np.float32))
@@ -250,7 +257,10 @@ def cases(tier):
                 continue
             cs.append(Case(f"laws_N{N}_T{T}_C{C}_k{k}", "case_laws", {"N": N, "T": T, "C": C, "k": k, "nan_channel": False}, timeout_s=3300, max_paths=200000))
     cs.append(Case("laws_nanpad_T4_C1_k1", "case_laws", {"N": 1, "T": 4, "C": 1, "k": 1, "nan_channel": True}, timeout_s=3300, max_paths=200000))
-    cs.append(Case("scaling_T4_C1", "case_scaling", {"T": 4, "C": 1, "k": 1}, timeout_s=3300, max_paths=200000, solver_timeout_ms=600000))   # non-linear (value x scale): give the solver room on a loaded machine
+    for name, sc in (("quarter", "1/4"), ("three", "3"), ("tiny", "1/1099511627776")):         # 2^-40: volts instead of microvolts and below
+        cs.append(Case(f"scaling_T4_C1_by_{name}", "case_scaling", {"T": 4, "C": 1, "k": 1, "scale": sc}, timeout_s=3300, max_paths=200000))
+    if tier == "thorough":
+        cs.append(Case("scaling_T4_C1", "case_scaling", {"T": 4, "C": 1, "k": 1}, timeout_s=3300, max_paths=200000, solver_timeout_ms=1800000))   # free factor: non-linear, solver time varies a lot with the seed
     cs.append(Case("channel_swap_T4", "case_channel_swap", {"T": 4 if tier == "quick" else 5, "k": 1}, timeout_s=3300, max_paths=200000))
     cs.append(Case("pick_maxima_T3_C2", "case_pick_maxima", {"T": 3, "C": 2}, timeout_s=1500))
     cs.append(Case("integer_waveform_T4", "case_integer_waveform", {"T": 4, "k": 1}, timeout_s=3300, max_paths=200000))
